@@ -107,3 +107,22 @@ Proof.
   - intros r [E|[]]. subst. simpl. lia.
   - reflexivity.
 Qed.
+
+(* Crash points: if a step writes the lease but its reply is lost (a crash
+   between the INSERT and the send; equally a dropped packet or a duplicate ACK
+   the client discards), the statement of C01_no_double_allocation does NOT
+   extend to such histories -- the faithful model has a counterexample (a
+   renewal 1 s after the previous one shortens the record from 1600 to 1451;
+   the address is then granted to another client at 1452 while the first one
+   was last told 1600).  Recorded as observation O1 in design/C01.md. *)
+From Erbium Require Import Proofs.DhcpPoolCrash.
+Theorem C01_lost_reply_refuted :
+  exists h d log,
+    wf_history (map fst h) = true /\ run_lossy h = Some (d, log) /\
+    exists a b x t, a <> b /\ holds log a x t /\ holds log b x t.
+Proof. exact lost_reply_refuted. Qed.
+Check C01_lost_reply_refuted :
+  exists h d log,
+    wf_history (map fst h) = true /\ run_lossy h = Some (d, log) /\
+    exists a b x t, a <> b /\ holds log a x t /\ holds log b x t.
+Print Assumptions C01_lost_reply_refuted.
